@@ -51,21 +51,27 @@ ASSUME = {
 }
 
 # seconds per shard (plain stage)
-TIME_LIMIT = {"quick": 55, "thorough": 600}
+TIME_LIMIT = {"quick": 55, "thorough": 300}
 
 SANITIZER_PLAN = {
     # property -> tier -> list of stages
     "quick": {"C13": ["miri"], "C14": ["miri"]},
     "thorough": {
-        "C01": ["miri", "asan"],
-        "C03": ["asan"],
-        "C05": ["tsan", "miri"],
-        "C06": ["miri", "asan"],
-        "C07": ["asan"],
-        "C13": ["miri", "asan"],
-        "C14": ["miri", "asan"],
+        "C01": ["release", "miri", "asan"],
+        "C02": ["release", "miri"],
+        "C03": ["release", "asan"],
+        "C04": ["release"],
+        "C05": ["release", "tsan", "miri"],
+        "C06": ["release", "miri", "asan"],
+        "C07": ["release", "asan"],
+        "C13": ["release", "miri", "asan"],
+        "C14": ["release", "miri", "asan"],
+        "C15": ["release"],
     },
 }
+
+
+TASKSET = shutil.which("taskset")
 
 
 def log(msg):
@@ -309,8 +315,13 @@ def check(prop, tier, seed, root, harness, repo, nproc):
     cmds, envs, outs = [], [], []
     for i in range(nproc):
         out = os.path.join(work, "plain_%02d.json" % i)
-        cmds.append([bin_path(harness), "run", "--prop", prop, "--tier", tier, "--seed", str(seed), "--shard", str(i),
-                     "--nshards", str(nproc), "--out", out, "--time-limit", str(tl)])
+        argv = [bin_path(harness), "run", "--prop", prop, "--tier", tier, "--seed", str(seed), "--shard", str(i),
+                "--nshards", str(nproc), "--out", out, "--time-limit", str(tl)]
+        # three shards run with a restricted CPU affinity: available_parallelism() is then 1, 2 or 3, which makes the
+        # runner cap its workers below the requested number (single-worker "parallel" runs included)
+        if TASKSET and nproc >= 8 and i >= nproc - 3:
+            argv = [TASKSET, "-c", "0-%d" % (i - (nproc - 3))] + argv
+        cmds.append(argv)
         envs.append({})
         outs.append(out)
     res = run_shards(cmds, envs, outs, tl + 180, "plain")
@@ -348,6 +359,19 @@ def run_sanitizer_stage(st, prop, tier, seed, root, harness, repo, nproc, work):
             outs.append(out)
         # cargo needs to run in the workspace
         return run_shards_cwd(cmds, envs, outs, tl + 240, harness)
+    if st == "release":
+        ok, msg = build_plain(harness, repo, release=True)
+        if not ok:
+            log(msg)
+            return None
+        tl = 240
+        for i in range(nproc):
+            out = os.path.join(work, "release_%02d.json" % i)
+            cmds.append([bin_path(harness, release=True), "run", "--prop", prop, "--tier", tier, "--seed", str(seed + 3000), "--shard", str(i),
+                         "--nshards", str(nproc), "--out", out, "--time-limit", str(tl), "--only-mode", "F"])
+            envs.append({})
+            outs.append(out)
+        return run_shards(cmds, envs, outs, tl + 240, "release")
     if st == "asan":
         b, msg = build_asan(harness, repo)
         if b is None:
@@ -600,4 +624,4 @@ def progress_idx(progress):
 
 
 def shard_seed(stage, seed):
-    return {"asan": seed + 1000, "tsan": seed + 2000}.get(stage, seed)
+    return {"asan": seed + 1000, "tsan": seed + 2000, "release": seed + 3000}.get(stage, seed)
